@@ -15,6 +15,8 @@ func parse(tokens []*Token) ([]AstCommand, error) {
 	defer parse_mutex.Unlock()
 	commands := []AstCommand{}
 	capture_group_number = 0
+	verifCgn("reset")
+	defer verifCgn("end")
 	token_index := 0
 	for token_index < len(tokens)-1 {
 		ws_index := consumeIgnoreableTokens(tokens, token_index)
